@@ -467,7 +467,8 @@ func TestDumpLoadAgainstModel(t *testing.T) {
 // (Model/DumpLoadW.v: Alive list in Filter0 order, rebuilt entity index, target flags and
 // component-less table) to the implementation: a seeded history of the `store` / `relations`
 // streams runs on the implementation and (as a script) on the extracted model; the entity dump of
-// the final state is loaded into a new world of the same configuration; the full internal dump
+// the final state is loaded into a new world of the same configuration, or into a world that has a
+// history of its own and was Reset; the full internal dump
 // (VerifDump) of the loaded world must equal the model's.
 func TestWorldDumpLoadAgainstModel(t *testing.T) {
 	n := 60
@@ -476,7 +477,7 @@ func TestWorldDumpLoadAgainstModel(t *testing.T) {
 	}
 	var in strings.Builder
 	var want []string
-	maxAlive, totalAlive, relWorlds := 0, 0, 0
+	maxAlive, totalAlive, relWorlds, resetTargets := 0, 0, 0, 0
 	for k := 0; k < n; k++ {
 		r := sim.NewRng(seed()*32452843 + uint64(k))
 		name := []string{"store", "relations", "store"}[r.Intn(3)]
@@ -501,6 +502,25 @@ func TestWorldDumpLoadAgainstModel(t *testing.T) {
 		}
 		dump := s.W.Unsafe().DumpEntities()
 		fresh := sim.NewSim(cfg)
+		// two cases in three: the receiving world has a history of its own and is Reset before loading
+		var tlines [][]int64
+		if !r.Chance(33) {
+			tst := sim.Streams[[]string{"store", "relations"}[r.Intn(2)]]
+			tst.WithDump = false
+			tg := sim.NewGen(r, fresh, tst)
+			for i, ops := 0, 5+r.Intn(50); i < ops; i++ {
+				l := tg.NextOp()
+				tlines = append(tlines, append([]int64{}, l...))
+				fresh.Step(l)
+			}
+			if fresh.W.IsLocked() {
+				fresh, tlines = sim.NewSim(cfg), nil
+			} else {
+				tlines = append(tlines, []int64{13})
+				fresh.Step([]int64{13})
+				resetTargets++
+			}
+		}
 		fresh.W.Unsafe().LoadEntities(&dump)
 		if len(dump.Alive) > maxAlive {
 			maxAlive = len(dump.Alive)
@@ -515,7 +535,7 @@ func TestWorldDumpLoadAgainstModel(t *testing.T) {
 		}
 		want = append(want, sb.String())
 		in.WriteString("-102\n")
-		for _, l := range append([][]int64{cfg.Line(), {0}}, lines...) {
+		for _, l := range append(append([][]int64{cfg.Line(), {int64(len(tlines))}}, tlines...), lines...) {
 			for i, v := range l {
 				if i > 0 {
 					in.WriteByte(' ')
@@ -546,5 +566,5 @@ func TestWorldDumpLoadAgainstModel(t *testing.T) {
 			t.Fatalf("VERIF-REPLAY world dumpload case %d (seed %d): loaded world differs\nimplementation %s\nmodel          %s", i, seed(), want[i], got[i])
 		}
 	}
-	fmt.Printf("VERIF-STAT {\"world_dumpload_cases\": %d, \"world_dumpload_relation_worlds\": %d, \"world_dumpload_max_alive\": %d, \"world_dumpload_alive_total\": %d}\n", len(want), relWorlds, maxAlive, totalAlive)
+	fmt.Printf("VERIF-STAT {\"world_dumpload_cases\": %d, \"world_dumpload_relation_worlds\": %d, \"world_dumpload_max_alive\": %d, \"world_dumpload_alive_total\": %d, \"world_dumpload_reset_targets\": %d}\n", len(want), relWorlds, maxAlive, totalAlive, resetTargets)
 }
